@@ -2,6 +2,7 @@ package main
 
 import (
 	"fmt"
+	"time"
 
 	fpgo "github.com/TeaEntityLab/fpGo/v2"
 	"github.com/TeaEntityLab/fpGo/v2/zzverif/vsched"
@@ -352,6 +353,45 @@ func payloadScenario(capacity int, bound int) *vsched.Scenario {
 	}
 }
 
+// askMixScenario: the mailbox of an actor that also answers Asks. One Ask times out on the asker's side
+// (the effect replies late, or never); the messages sent to the same actor before and after it are each
+// processed exactly once, in order - a reply nobody waits for any more must not wedge the mailbox.
+func askMixScenario(late string, capacity, bound int) *vsched.Scenario {
+	return &vsched.Scenario{
+		Name:  fmt.Sprintf("actor/ask-times-out-reply-%s/cap%d", late, capacity),
+		Bound: bound,
+		Body: func() {
+			actor := fpgo.ActorNewByOptionsGenerics(func(self *fpgo.ActorDef[interface{}], msg interface{}) {
+				switch m := msg.(type) {
+				case int:
+					vsched.Event("enter", 0, m)
+					vsched.Yield()
+					vsched.Event("leave", 0, m)
+				case *fpgo.AskDef[int, int]:
+					vsched.Event("enter", 1, 0)
+					if late == "late" {
+						time.Sleep(20 * time.Millisecond)
+						m.Reply(m.Message * 2)
+					}
+					vsched.Event("leave", 1, 0)
+				}
+			}, make(chan interface{}, capacity), map[string]interface{}{})
+			actor.Send(0)
+			_, err := fpgo.AskNewGenerics[int, int](21).AskOnceWithTimeout(actor, 5*time.Millisecond)
+			vsched.Event("asked", err == fpgo.ErrActorAskTimeout)
+			actor.Send(1)
+			actor.Send(2)
+		},
+		Check: func(r *vsched.Result) []vsched.Failure {
+			fs := mailboxOracle("actor-ask-mix", r, 1, 3)
+			if len(fs) == 0 && e1.Count(r, "enter", 1, 0) != 1 {
+				fs = append(fs, e1.Fail("C12|actor-ask-mix|duplicate", "the Ask message was processed %d times", e1.Count(r, "enter", 1, 0)))
+			}
+			return fs
+		},
+	}
+}
+
 func scenarios(tier string) []*vsched.Scenario {
 	b := 2
 	caps := []int{0, 1, 2}
@@ -382,6 +422,9 @@ func scenarios(tier string) []*vsched.Scenario {
 		}
 	}
 	out = append(out, spawnScenario(false, b), spawnScenario(true, b), payloadScenario(0, 1), payloadScenario(3, 1))
+	for _, c := range []int{0, 2} {
+		out = append(out, askMixScenario("late", c, b), askMixScenario("never", c, b))
+	}
 	for _, c := range []string{"Handler.New", "Handler.NewByCh", "Actor.New", "Actor.NewByOptions", "ActorNewGenerics", "ActorNewByOptionsGenerics"} {
 		out = append(out, twinScenario(c, b))
 	}
